@@ -51,7 +51,7 @@ var (
 // Validate validates the format of the given bech32 string. The checksum
 // is not verified by Validate. Only the formatting of the string is checked.
 func Validate(bechAndHrp string) error {
-	if len(bechAndHrp) < 8 || len(bechAndHrp) > 90 {
+	if len(bechAndHrp) < 8 || len(bechAndHrp) > MaxLength {
 		return ErrInvalidBech32Length
 	}
 
